@@ -263,6 +263,261 @@ func table(in, out string) {
 	os.WriteFile(out, b, 0o644)
 }
 
+// ---------------------------------------------------------------- results table (MC_AnkoCall, Shard = "results")
+
+type named struct{ X int64 }
+
+var resVal = map[string]reflect.Value{
+	"int64": reflect.ValueOf(int64(7)), "string": reflect.ValueOf("s"), "float64": reflect.ValueOf(2.5), "slice": reflect.ValueOf([]string{"a"}),
+	"nilslice": reflect.ValueOf([]string(nil)), "nilmap": reflect.ValueOf(map[string]int64(nil)), "nilptr": reflect.ValueOf((*named)(nil)), "ptr": reflect.ValueOf(&named{3}),
+	"nilerr": reflect.Zero(reflect.TypeOf((*error)(nil)).Elem()), "err": reflect.ValueOf(errors.New("e")).Convert(reflect.TypeOf((*error)(nil)).Elem()),
+	"ifacenil": reflect.Zero(reflect.TypeOf((*interface{})(nil)).Elem()), "ifaceint": reflect.ValueOf(int64(7)).Convert(reflect.TypeOf((*interface{})(nil)).Elem()),
+}
+
+func dyn(x interface{}) string {
+	if x == nil {
+		return "nil"
+	}
+	rv := reflect.ValueOf(x)
+	switch x.(type) {
+	case int64:
+		return "int64"
+	case string:
+		return "string"
+	case float64:
+		return "float64"
+	case []string:
+		if rv.IsNil() {
+			return "nilslice"
+		}
+		return "slice"
+	case map[string]int64:
+		if rv.IsNil() {
+			return "nilmap"
+		}
+		return "map"
+	case *named:
+		if rv.IsNil() {
+			return "nilptr"
+		}
+		return "ptr"
+	case error:
+		return "err"
+	}
+	return fmt.Sprintf("other:%T", x)
+}
+
+type ResCase struct {
+	C struct {
+		Results []string `json:"results"`
+	} `json:"c"`
+	Res struct {
+		Shape string   `json:"shape"`
+		Es    []string `json:"es"`
+	} `json:"res"`
+}
+
+func results(in, out string) {
+	var sum Summary
+	add := func(m Mismatch) {
+		sum.NMismatch++
+		if len(sum.Mismatches) < 40 {
+			sum.Mismatches = append(sum.Mismatches, m)
+		}
+	}
+	err := tlcout.Each(in, func(raw []byte) error {
+		var c ResCase
+		if err := json.Unmarshal(raw, &c); err != nil {
+			return err
+		}
+		sum.Cases++
+		var outs []reflect.Type
+		var vals []reflect.Value
+		for _, k := range c.C.Results {
+			outs = append(outs, resVal[k].Type())
+			vals = append(vals, resVal[k])
+		}
+		h := reflect.MakeFunc(reflect.FuncOf(nil, outs, false), func([]reflect.Value) []reflect.Value { return vals })
+		for _, src := range []string{"h()", "r = h()\nr", "(func() { return h() })()"} {
+			e := env.NewEnv()
+			e.DefineValue("h", h)
+			var res interface{}
+			var err error
+			func() {
+				defer func() {
+					if r := recover(); r != nil {
+						err = fmt.Errorf("PANIC %v", r)
+					}
+				}()
+				res, err = vm.Execute(e, nil, src)
+			}()
+			what := fmt.Sprintf("results %v of a Go function, read by %q", c.C.Results, src)
+			if err != nil {
+				add(Mismatch{Src: src, What: what + ": the call failed", Exp: c.Res, Got: err.Error()})
+				continue
+			}
+			var got []string
+			switch c.Res.Shape {
+			case "nil":
+				if res != nil {
+					add(Mismatch{Src: src, What: what, Exp: "nil", Got: show(res)})
+				}
+				continue
+			case "single":
+				got = []string{dyn(res)}
+			default:
+				l, ok := res.([]interface{})
+				if !ok {
+					add(Mismatch{Src: src, What: what + ": several results must come back as a list", Exp: c.Res.Es, Got: show(res)})
+					continue
+				}
+				for _, x := range l {
+					got = append(got, dyn(x))
+				}
+			}
+			if fmt.Sprint(got) != fmt.Sprint(c.Res.Es) {
+				add(Mismatch{Src: src, What: what + ": every result arrives with its own dynamic type", Exp: c.Res.Es, Got: got})
+			}
+		}
+		return nil
+	})
+	if err != nil {
+		fmt.Fprintln(os.Stderr, err)
+		os.Exit(2)
+	}
+	b, _ := json.Marshal(sum)
+	os.WriteFile(out, b, 0o644)
+}
+
+// ---------------------------------------------------------------- methods table (MC_AnkoCall, Shard = "methods")
+
+type RStruct struct{ N int64 }
+type RInt int64
+type RMap map[string]int64
+type RSlice []int64
+
+func (r RStruct) V0() int64              { return r.N + 100 }
+func (r RStruct) V1(a int64) int64       { return r.N + a }
+func (r RStruct) V2(a, b int64) int64    { return r.N + a + b }
+func (r *RStruct) P0() int64             { r.N++; return r.N }
+func (r *RStruct) P1(a int64) int64      { r.N += a; return r.N }
+func (r *RStruct) P2(a, b int64) int64   { r.N += a + b; return r.N }
+func (r RInt) V0() int64                 { return int64(r) + 100 }
+func (r RInt) V1(a int64) int64          { return int64(r) + a }
+func (r RInt) V2(a, b int64) int64       { return int64(r) + a + b }
+func (r *RInt) P0() int64                { *r++; return int64(*r) }
+func (r *RInt) P1(a int64) int64         { *r += RInt(a); return int64(*r) }
+func (r *RInt) P2(a, b int64) int64      { *r += RInt(a + b); return int64(*r) }
+func (r RMap) V0() int64                 { return r["n"] + 100 }
+func (r RMap) V1(a int64) int64          { return r["n"] + a }
+func (r RMap) V2(a, b int64) int64       { return r["n"] + a + b }
+func (r *RMap) P0() int64                { (*r)["n"]++; return (*r)["n"] }
+func (r *RMap) P1(a int64) int64         { (*r)["n"] += a; return (*r)["n"] }
+func (r *RMap) P2(a, b int64) int64      { (*r)["n"] += a + b; return (*r)["n"] }
+func (r RSlice) V0() int64               { return r[0] + 100 }
+func (r RSlice) V1(a int64) int64        { return r[0] + a }
+func (r RSlice) V2(a, b int64) int64     { return r[0] + a + b }
+func (r *RSlice) P0() int64              { (*r)[0]++; return (*r)[0] }
+func (r *RSlice) P1(a int64) int64       { (*r)[0] += a; return (*r)[0] }
+func (r *RSlice) P2(a, b int64) int64    { (*r)[0] += a + b; return (*r)[0] }
+
+type MethCase struct {
+	C struct {
+		Shape string `json:"shape"`
+		Recv  string `json:"recv"`
+		NArgs int    `json:"nargs"`
+	} `json:"c"`
+	Reachable string `json:"reachable"`
+	Mutation  string `json:"mutation"`
+}
+
+func methods(in, out string) {
+	var sum Summary
+	add := func(m Mismatch) {
+		sum.NMismatch++
+		if len(sum.Mismatches) < 40 {
+			sum.Mismatches = append(sum.Mismatches, m)
+		}
+	}
+	err := tlcout.Each(in, func(raw []byte) error {
+		var c MethCase
+		if err := json.Unmarshal(raw, &c); err != nil {
+			return err
+		}
+		sum.Cases++
+		// the receiver value (state 5 in every shape)
+		rs, ri, rm, rl := RStruct{5}, RInt(5), RMap{"n": 5}, RSlice{5}
+		var obj interface{}
+		read := func() int64 { return 0 }
+		switch c.C.Shape {
+		case "struct":
+			obj = rs
+		case "ptrstruct":
+			obj, read = &rs, func() int64 { return rs.N }
+		case "namedint":
+			obj = ri
+		case "ptrnamedint":
+			obj, read = &ri, func() int64 { return int64(ri) }
+		case "namedmap":
+			obj = rm
+		case "ptrnamedmap":
+			obj, read = &rm, func() int64 { return rm["n"] }
+		case "namedslice":
+			obj = rl
+		case "ptrnamedslice":
+			obj, read = &rl, func() int64 { return rl[0] }
+		}
+		name := map[string]string{"value": "V", "pointer": "P"}[c.C.Recv] + fmt.Sprint(c.C.NArgs)
+		args := []string{"", "2", "2, 3"}[c.C.NArgs]
+		sumArgs := []int64{0, 2, 5}[c.C.NArgs]
+		src := "obj." + name + "(" + args + ")"
+		e := env.NewEnv()
+		e.Define("obj", obj)
+		var res interface{}
+		var err error
+		func() {
+			defer func() {
+				if r := recover(); r != nil {
+					err = fmt.Errorf("PANIC %v", r)
+				}
+			}()
+			res, err = vm.Execute(e, nil, src)
+		}()
+		what := fmt.Sprintf("%s-receiver method with %d arguments on a %s value", c.C.Recv, c.C.NArgs, c.C.Shape)
+		if c.Reachable != "yes" {
+			sum.Open++
+			return nil
+		}
+		if err != nil {
+			if c.Reachable == "yes" {
+				add(Mismatch{Src: src, What: what + ": must be callable with member syntax", Exp: "a call", Got: err.Error()})
+			}
+			return nil
+		}
+		want := int64(5) + sumArgs
+		if c.C.Recv == "value" && c.C.NArgs == 0 {
+			want = 105
+		}
+		if c.C.Recv == "pointer" && c.C.NArgs == 0 {
+			want = 6
+		}
+		if res != want {
+			add(Mismatch{Src: src, What: what + ": called with exactly the supplied arguments, its result comes back", Exp: show(want), Got: show(res)})
+			return nil
+		}
+		if c.Mutation == "yes" && read() != want {
+			add(Mismatch{Src: src, What: what + ": through a pointer the method acts on the Go value itself", Exp: want, Got: read()})
+		}
+		return nil
+	})
+	if err != nil {
+		fmt.Fprintln(os.Stderr, err)
+		os.Exit(2)
+	}
+	b, _ := json.Marshal(sum)
+	os.WriteFile(out, b, 0o644)
+}
+
 // ---------------------------------------------------------------- scenarios
 
 type Host struct {
@@ -424,6 +679,14 @@ func scenarios(out string) {
 func main() {
 	if len(os.Args) >= 4 && os.Args[1] == "table" {
 		table(os.Args[2], os.Args[3])
+		return
+	}
+	if len(os.Args) >= 4 && os.Args[1] == "results" {
+		results(os.Args[2], os.Args[3])
+		return
+	}
+	if len(os.Args) >= 4 && os.Args[1] == "methods" {
+		methods(os.Args[2], os.Args[3])
 		return
 	}
 	if len(os.Args) >= 3 && os.Args[1] == "scenarios" {
